@@ -95,7 +95,7 @@ Section C04bNamed.
   Notation parse := (om_parse legacy guard_fix fix_nhkeys fix_nhsfx fix_tsmix fix_isnan fix_unit fix_quote fix_tsexp true
                       NUM parse_num parse_float parse_int num_lt num_eqb num_isinf num_integral num_huge
                       num_zero num_one num_inf ts_float is_word is_space_re is_digit_re).
-  Notation enter_family := (om_enter_family legacy guard_fix true NUM parse_float num_lt num_eqb num_zero num_inf).
+  Notation enter_family := (om_enter_family legacy guard_fix fix_nhsfx true NUM parse_float num_lt num_eqb num_zero num_inf).
   Notation flush := (om_flush legacy NUM parse_float num_lt num_eqb num_zero num_inf).
 
   (* a sample (not a native-histogram one) whose name the family in progress does not allow: the family in progress
@@ -105,7 +105,7 @@ Section C04bNamed.
     st_name st' = Some (os_name s) /\ st_allowed st' = [os_name s] /\ st_typ st' = Some OM_unknown /\
     st_samples st' = [] /\ exists seen', flush st = Ok (out, seen') /\ st_seen st' = seen'.
   Proof.
-    exact (enter_family_named legacy guard_fix NUM parse_float num_lt num_eqb num_zero num_inf).
+    exact (enter_family_named legacy guard_fix fix_nhsfx NUM parse_float num_lt num_eqb num_zero num_inf).
   Qed.
 
   (* document level: whatever the document, a returned family of type unknown (opened by a sample, by metadata without
@@ -128,7 +128,7 @@ Definition ex_sp_sample : om_sample Z :=
   {| os_name := s2l " a"; os_labels := Some []; os_value := Some 1%Z; os_ts := None; os_ex := None; os_nh := None |}.
 Example C04_implicit_family_enter_nonvacuous :
   exists st' out,
-    om_enter_family false true true Z toy_float Z.ltb Z.eqb 0%Z (10 ^ 400)%Z om_st_init ex_sp_sample false = Ok (st', out)
+    om_enter_family false true true true Z toy_float Z.ltb Z.eqb 0%Z (10 ^ 400)%Z om_st_init ex_sp_sample false = Ok (st', out)
     /\ mem_str (os_name ex_sp_sample) (st_allowed (@om_st_init Z)) = false.
 Proof. eexists. eexists. split; vm_compute; reflexivity. Qed.
 
